@@ -39,7 +39,7 @@ use std::sync::Mutex;
 
 static EXECUTIONS: AtomicU64 = AtomicU64::new(0);
 static OUTCOMES: Mutex<BTreeMap<String, u64>> = Mutex::new(BTreeMap::new());
-static VIOLATION: Mutex<Option<(String, String, String)>> = Mutex::new(None); // (property, signature, summary)
+static VIOLATIONS: Mutex<Vec<(String, String, String)>> = Mutex::new(Vec::new()); // (property, signature, summary)
 
 fn esc(s: &str) -> String {
     s.replace('\\', "\\\\").replace('"', "\\\"").replace('\n', " ")
@@ -47,11 +47,13 @@ fn esc(s: &str) -> String {
 
 fn finish(fen: &str, ks: &[usize], bound: &str, gos: usize, complete: bool) -> ! {
     let outcomes = OUTCOMES.lock().unwrap();
-    let v = VIOLATION.lock().unwrap();
+    let v = VIOLATIONS.lock().unwrap();
     let outs: Vec<String> = outcomes.iter().map(|(k, n)| format!("\"{}\": {}", esc(k), n)).collect();
-    let viol = match &*v {
-        Some((p, s, m)) => format!("{{\"property\": \"{}\", \"signature\": \"{}\", \"summary\": \"{}\"}}", esc(p), esc(s), esc(m)),
-        None => "null".to_string(),
+    let viol = if v.is_empty() {
+        "null".to_string()
+    } else {
+        let items: Vec<String> = v.iter().map(|(p, s, m)| format!("{{\"property\": \"{}\", \"signature\": \"{}\", \"summary\": \"{}\"}}", esc(p), esc(s), esc(m))).collect();
+        format!("[{}]", items.join(", "))
     };
     println!(
         "{{\"fen\": \"{}\", \"expiry\": {:?}, \"bound\": \"{}\", \"gos\": {}, \"executions\": {}, \"complete\": {}, \"outcomes\": {{{}}}, \"violation\": {}}}",
@@ -68,9 +70,9 @@ fn finish(fen: &str, ks: &[usize], bound: &str, gos: usize, complete: bool) -> !
 }
 
 fn violate(prop: &str, sig: &str, summary: String) {
-    let mut v = VIOLATION.lock().unwrap();
-    if v.is_none() {
-        *v = Some((prop.to_string(), sig.to_string(), summary));
+    let mut v = VIOLATIONS.lock().unwrap();
+    if !v.iter().any(|(p, s, _)| p == prop && s == sig) {
+        v.push((prop.to_string(), sig.to_string(), summary));
     }
 }
 
@@ -130,18 +132,27 @@ fn body(fen: &str, ks: &[usize], gos: usize) {
         violate("C08", if pos.legal_moves().is_empty() { "no-answer/root-without-legal-move" } else { "no-answer" }, format!("{} expiry {}: livelock: {}", fen, ks_text, l));
         outcome.push("livelock".into());
     }
+    let mut io_died = false;
     for p in c.search_panics.lock().unwrap().iter() {
         if std::env::var("WMC_DEBUG").is_ok() {
             eprintln!("panic in model thread: {}", p);
         }
-        let sig = if p.contains("SendError") { "search-thread-panic/send-to-dropped-receiver" } else { "panic" };
-        violate("C07", sig, format!("{} expiry {}: {}", fen, ks_text, p));
-        outcome.push("panic".into());
+        if p.starts_with("io thread:") {
+            // the command loop's thread dies: this go is never answered and the engine serves nothing further
+            io_died = true;
+            violate("C08", "io-thread-panic", format!("{} expiry {}: {}", fen, ks_text, p));
+            violate("C03", "io-thread-panic", format!("{} expiry {}: {} (no bestmove for this go)", fen, ks_text, p));
+            outcome.push("io-panic".into());
+        } else {
+            let sig = if p.contains("SendError") { "search-thread-panic/send-to-dropped-receiver" } else { "search-thread-panic" };
+            violate("C07", sig, format!("{} expiry {}: {}", fen, ks_text, p));
+            outcome.push("panic".into());
+        }
     }
     for g in 0..gos {
         let best: Vec<&(String, bool, usize)> = captured.iter().filter(|(l, _, go)| l.starts_with("bestmove") && *go == g).collect();
         let legal = pos.legal_moves();
-        if c.livelock.lock().unwrap().is_some() || !c.search_panics.lock().unwrap().is_empty() && best.is_empty() {
+        if c.livelock.lock().unwrap().is_some() || io_died {
             break;
         }
         if best.len() != 1 {
@@ -187,7 +198,7 @@ fn body(fen: &str, ks: &[usize], gos: usize) {
     }
     *OUTCOMES.lock().unwrap().entry(outcome.join(" ")).or_insert(0) += 1;
     sched::uninstall();
-    if VIOLATION.lock().unwrap().is_some() {
+    if !VIOLATIONS.lock().unwrap().is_empty() {
         // first violating schedule found: report and stop (one process per model)
         let b = std::env::var("WMC_BOUND").unwrap_or_default();
         finish(&fen, ks, &b, gos, false);
